@@ -31,6 +31,11 @@ variable (N : Noise) (sep : List Rat) (scale : Rat)
 
 /-! ## what a returned row is -/
 
+/-- The driver evaluates stages 1-2 once per table and stages 3-5 once per filter triple: that is
+`locatePost` itself. -/
+theorem locatePost_eq (F : Filt) (l : List Feat) :
+    locatePost N sep scale F l = (select F (stage12 sep scale l)).map (withEp N) := rfl
+
 /-- Every returned row is `withEp N (rescale scale f)` for a row `f` of `refine_com`'s table that
 survived the duplicate removal: position, size, raw_mass and all other columns are carried
 unchanged, mass and signal are divided by the scale factor. -/
